@@ -384,6 +384,17 @@ def correspondence(ctx):
         same = H.canon_key(a) == H.canon_key(b)
         todo.append({"a": a, "b": b, "same": same, "aspect": aspect if not same else "same:coincidence"})
         eq_ctx.append({"ctx": [x], "v": y2})  # … nor when hashed with a shared Cache after it
+    # aliasing is not content: one object (a File, a container, an instance) referenced several times vs separate equal objects
+    for _ in range(ctx.pick(16, 200)):
+        a = H.gen_aliased(ctx.rng)
+        b = H.unshare(copy.deepcopy(a))
+        todo.append({"a": a, "b": b, "same": True, "aspect": "same:aliasing"})
+    # plain-class instances whose only difference is a callable stored on the instance
+    for _ in range(ctx.pick(12, 150)):
+        a, b, aspect, _call = H.gen_callable_attr_pair(ctx.rng)
+        if ctx.rng.random() < 0.3:
+            a, b = {"k": "list", "xs": [a, {"k": "int", "v": "1"}]}, {"k": "list", "xs": [b, {"k": "int", "v": "1"}]}
+        todo.append({"a": a, "b": b, "same": False, "aspect": aspect})
     for i in range(0, len(todo), batch):
         run_pairs(ctx, todo[i : i + batch], moddir)
     run_ctx(ctx, eq_ctx, moddir)
